@@ -486,6 +486,10 @@ protected:
                 m_constants.s_cdataCloseString,
                 m_constants.s_cdataCloseStringLength);
         }
+
+        // A CDATA section is text, so nothing may be
+        // inserted between it and what follows.
+        m_indentHandler.setPrevText(true);
     }
 
     /**
